@@ -32,6 +32,19 @@ func (e *pnftEnv) addr(text string) string {
 	return hxs(text)
 }
 
+// begin / abort a discarded branch
+func (e *pnftEnv) begin() func() {
+	saved := e.ctx
+	e.ctx, _ = e.ctx.CacheContext()
+	inBranch = true
+	e.s.Emit("pnft.begin", "-")
+	return func() {
+		e.ctx = saved.WithBlockTime(e.ctx.BlockTime())
+		inBranch = false
+		e.s.Emit("pnft.abort", "-")
+	}
+}
+
 func (e *pnftEnv) reset() {
 	e.ctx, _ = e.c.DeliverCtx().CacheContext()
 	e.s.Emit("reset", "-")
@@ -79,7 +92,7 @@ func (e *pnftEnv) msg(m sdk.Msg) bool {
 		return "ok"
 	})
 	e.s.Emit(op, ans)
-	return ans == "ok"
+	return ans == "ok" && !inBranch
 }
 
 func classTok(d *pnfttypes.Denom) string {
@@ -304,6 +317,7 @@ type pnftPools struct {
 
 func pnftHistory(e *pnftEnv, rng *rand.Rand, p pnftPools, steps int) {
 	e.reset()
+	inBranch = false
 	now := int64(1700000000000000000)
 	e.now(now)
 	pa := func() string {
@@ -340,12 +354,58 @@ func pnftHistory(e *pnftEnv, rng *rand.Rand, p pnftPools, steps int) {
 		}
 		return p.addrs[0]
 	}
+	ghost := map[string]string{} // denom -> receiver of a hand-over that happened only on a discarded branch
+	var abort func()
+	left := 0
 	for i := 0; i < steps; i++ {
 		if rng.Intn(5) == 0 {
 			now += int64(1 + rng.Intn(5000))
 			e.now(now)
 		}
+		// now and then a few messages run on a branch that is then discarded
+		if abort != nil {
+			if left == 0 {
+				abort()
+				abort = nil
+			} else {
+				left--
+			}
+		} else if rng.Intn(8) == 0 {
+			abort = e.begin()
+			left = 1 + rng.Intn(3)
+		}
 		aim := rng.Intn(10) < 8
+		if abort != nil && rng.Intn(2) == 0 && len(owner) > 0 {
+			// aimed: hand a denom over on the discarded branch; later the intended receiver tries to use it
+			ds := make([]string, 0, len(owner))
+			for d := range owner {
+				ds = append(ds, d)
+			}
+			sortStrings(ds)
+			d := ds[rng.Intn(len(ds))]
+			b := other(owner[d])
+			e.msg(&pnfttypes.MsgTransferDenomRequest{Id: d, Sender: owner[d], Receiver: b})
+			ghost[d] = b
+			continue
+		}
+		if abort == nil && len(ghost) > 0 && rng.Intn(3) == 0 {
+			ds := make([]string, 0, len(ghost))
+			for d := range ghost {
+				ds = append(ds, d)
+			}
+			sortStrings(ds)
+			d := ds[rng.Intn(len(ds))]
+			switch rng.Intn(3) {
+			case 0:
+				e.msg(&pnfttypes.MsgMintPNFTRequest{DenomId: d, Id: pi(), Name: "t", Creator: ghost[d]})
+			case 1:
+				e.msg(&pnfttypes.MsgUpdateDenomRequest{Id: d, Name: "stolen", Updater: ghost[d]})
+			default:
+				e.msg(&pnfttypes.MsgTransferDenomRequest{Id: d, Sender: ghost[d], Receiver: ghost[d]})
+			}
+			delete(ghost, d)
+			continue
+		}
 		switch r := rng.Intn(26); {
 		case r < 3:
 			d, a := pd(), pa()
@@ -436,6 +496,9 @@ func pnftHistory(e *pnftEnv, rng *rand.Rand, p pnftPools, steps int) {
 		default:
 			e.qPNFT(pd(), pi())
 		}
+	}
+	if abort != nil {
+		abort()
 	}
 	for _, d := range p.denoms {
 		e.qDenom(d)
